@@ -913,9 +913,10 @@ func checkCookie(c *mc.Ctx, st *stats, cc *CookieCase) {
 		want.Path = "/" // the path setter resolves dot segments (C07); these two climb to the root
 	}
 	ck := buildCookie(cc, false)
-	if strings.Contains(string(cc.Path), "%") {
-		// the path setter decodes and resolves (C07); what matters here is that the attribute the object reports
-		// is the attribute a recipient reads back
+	if p := string(cc.Path); strings.Contains(p, "%") || strings.ContainsAny(p, ";\x01") || strings.HasSuffix(p, " ") {
+		// the path setter decodes and resolves (C07), and bytes that cannot travel raw in a Set-Cookie line (';', a
+		// blank at the end, a control byte) are kept escaped; what matters here is that the attribute the object
+		// reports is the attribute a recipient reads back
 		want.Path = string(ck.Path())
 	}
 	s := append([]byte(nil), ck.Cookie()...)
@@ -1398,7 +1399,9 @@ func enumCookies(c *mc.Ctx) {
 		{"k", "a\t"}, {"k", "\ta"}, {"k", "10\u00a0"}, {"k", "\u3000x"}, {"k", "x\u0085"}, {"k\u00a0", "v"}}
 	maxAges := []int{0, 1, 86400, 2147483647}
 	domains := []string{"", "example.com", ".Sub.Example.COM"}
-	paths := []string{"", "/", "/a/B c", "/..", "/a/../..", "/a%3Bb", "/x%20", "/p%3B%20Domain=evil.example", "/dir\u00a0", "/dir%09"}
+	paths := []string{"", "/", "/a/B c", "/..", "/a/../..", "/a%3Bb", "/x%20", "/p%3B%20Domain=evil.example", "/dir\u00a0", "/dir%09",
+		// the same bytes handed over raw
+		"/app;v=1", "/p; Domain=evil.example", "/my files ", "/c\x01d"}
 	var combos []CookieCase
 	for _, ma := range maxAges {
 		for e := -1; e < len(instants); e++ {
